@@ -21,6 +21,9 @@ pub struct VRun {
     pub ctx: usize,
     pub out: String,
     pub res: Val,
+    /// invocations of the harness functions during this run (only when recording is on)
+    #[serde(default, skip_serializing_if = "Vec::is_empty")]
+    pub calls: Vec<(String, Vec<Val>)>,
 }
 
 #[derive(Clone, Debug, PartialEq, Serialize, Deserialize)]
@@ -311,11 +314,13 @@ pub fn observe_value(
                     ctx: c,
                     out: "panic".into(),
                     res: Val::nil(),
+                    calls: vec![],
                 });
             }
         }
         Ok(fv) => {
             for &c in ctxs {
+                CALLS.with(|l| l.borrow_mut().clear());
                 let r = catch_unwind(AssertUnwindSafe(|| match fv.execute(&build_ctx(scheme, spec, &w.ctxs[c - 1])) {
                     Ok(Ok(v)) => ("ok", Val::from_engine(&v)),
                     Ok(Err(t)) => (
@@ -331,11 +336,13 @@ pub fn observe_value(
                         ctx: c,
                         out: o.into(),
                         res: v,
+                        calls: CALLS.with(|l| l.borrow().clone()),
                     },
                     Err(_) => VRun {
                         ctx: c,
                         out: "panic".into(),
                         res: Val::nil(),
+                        calls: vec![],
                     },
                 });
             }
